@@ -18,7 +18,7 @@ def InvOnce (cfg : Cfg) (s : St) : Prop :=
 theorem typedNames_single (sp : SmartPath) (rel : Path) : ∃ x, typedNames sp rel = [x] := by
   unfold typedNames
   simp only []
-  split <;> (split <;> exact ⟨_, rfl⟩)
+  split <;> exact ⟨_, rfl⟩
 
 theorem fileKeys_single {sp : SmartPath} {p : Path} {k k' : Key}
     (h : k ∈ fileKeys sp p) (h' : k' ∈ fileKeys sp p) : k = k' := by
